@@ -5,8 +5,9 @@ in-memory sqlite3 table through a recording connection wrapper; the returned row
 Python evaluator of SQL three-valued logic (models/sql3vl.py) and the recorded (sql, params) with the
 operands of the tree.
 
-Table t(id, s TEXT, n INT): 10 rows covering NULL, '', quotes, wildcard characters, an SQL fragment,
-case variants and small ints (ROWS below).
+Table t(id, s TEXT, n INT, _d INT): 10 rows covering NULL, '', quotes, wildcard characters, an SQL
+fragment, case variants and small ints (ROWS below); "_d" is a column whose name starts with an underscore
+like the special keywords _order_by / _as_scalars; columns are also addressed as "t.s", "t.n".
 
 Families (all members visited):
   single  : every atom (column, operator, operand) of the full alphabet (130 atoms: 12 operators, NULL,
@@ -22,6 +23,8 @@ Families (all members visited):
   triples : (thorough) every ordered triple of atoms as a AND b AND c, a AND _or(b, c), _or(a, b) AND c,
             _or(a, b, c)
   deco3   : (thorough) every sequence of 3 top-level items over a reduced item alphabet; nested _or groups
+  seq     : two calls in a row on one fresh SqlMethod / SqlMethodT object in freshly reloaded modules
+            (16 x 16 representative atoms x 6 method pairs x both placeholder styles)
   illtyped: operator/operand pairs the documentation does not define (outside the property: counted;
             only the "operand never in the SQL text" obligation is checked when they execute)
 """
@@ -60,6 +63,7 @@ REQUIRED_FEATURES = [
     "val:singleton-list", "val:tuple", "val:set", "val:list-with-null",
     "form:3-tuple", "form:2-tuple", "form:list", "form:object", "form:keyword", "form:or-empty", "form:or-1",
     "form:or-2", "form:or-keyword", "form:none-arg", "form:static", "form:lower-case-op",
+    "form:keyword-underscore-column", "col:qualified", "col:underscore", "method:list+scalars", "seq:two-calls",
     "method:list", "method:all", "method:one", "method:one_or_none", "method:T.list", "method:T.one",
     "method:T.one_or_none", "order:-", "order:id", "order:id DESC", "via:ctor",
     "conn:q", "conn:p", "3vl:unknown-row", "result:empty", "result:several", "result:one",
@@ -67,21 +71,21 @@ REQUIRED_FEATURES = [
 ]
 
 # ------------------------------------------------------------------------------------------ the table
-ROWS = [
-    (1, None, None),
-    (2, "", 2),
-    (3, "o'k", 1),
-    (4, "50%", 0),
-    (5, "a_b", -1),
-    (6, "A_B", None),
-    (7, "x; DROP TABLE t", 1),
-    (8, "axb", 8),
-    (9, "500", 0),
-    (10, None, 7),
+ROWS = [            # (id, s, n, _d)
+    (1, None, None, 0),
+    (2, "", 2, 1),
+    (3, "o'k", 1, None),
+    (4, "50%", 0, 0),
+    (5, "a_b", -1, 1),
+    (6, "A_B", None, None),
+    (7, "x; DROP TABLE t", 1, 0),
+    (8, "axb", 8, 0),
+    (9, "500", 0, 1),
+    (10, None, 7, None),
 ]
 NROWS = len(ROWS)
 FULL = (1 << NROWS) - 1
-COLIDX = {"id": 0, "s": 1, "n": 2}
+COLIDX = {"id": 0, "s": 1, "n": 2, "_d": 3, "t.s": 1, "t.n": 2, "t._d": 3}
 SELECT = "SELECT id, s, n FROM t"
 STATICS = [("id = n", lambda r: L.eq3(r[0], r[2])),
            ("s IS NOT NULL", lambda r: r[1] is not None)]
@@ -100,13 +104,14 @@ def _static_masks(k):
 
 # ------------------------------------------------------------------------------------------ alphabet
 S_SCAL = [None, "", "o'k", "50%", "a_b", "A_B", "x; DROP TABLE t", "zz"]
-S_LISTS = [["l", []], ["l", ["o'k"]], ["t", ["a_b", "50%"]], ["l", ["x; DROP TABLE t", None]], ["l", [None]]]
-S_SETS = [["s", ["A_B", ""]]]
+S_LISTS = [["l", []], ["l", ["o'k"]], ["t", ["a_b", "50%"]], ["l", ["x; DROP TABLE t", None]], ["l", [None]],
+           ["t", [None]], ["t", ["zz", "a_b", "a_b"]]]
+S_SETS = [["s", ["A_B", ""]], ["s", [None]], ["s", ["50%"]]]
 S_LIKE = ["", "50%", "a_b", "A_B", "%", "_", "%'%", "o'k", "%t"]
 S_CMP = [None, "", "a_b", "b", "50%"]
 N_SCAL = [None, -1, 0, 1, 2, 7]
-N_LISTS = [["l", []], ["l", [1]], ["t", [0, 2]], ["l", [1, None]], ["l", [None]]]
-N_SETS = [["s", [-1, 7]]]
+N_LISTS = [["l", []], ["l", [1]], ["t", [0, 2]], ["l", [1, None]], ["l", [None]], ["t", [2, 0, 2]]]
+N_SETS = [["s", [-1, 7]], ["s", [None]]]
 N_CMP = [None, -1, 1, 7]
 
 
@@ -201,7 +206,9 @@ REPS = [_find(*t) for t in [
 ]]
 KW_SETS = [{"s": ["v", "o'k"]}, {"n": ["v", 1]}, {"s": ["v", None]}, {"n": ["l", [0, 2]]},
            {"s": ["v", "a_b"], "n": ["v", -1]}, {"n": ["v", None], "s": ["v", "A_B"]},
-           {"s": ["l", []]}, {"s": ["v", "x; DROP TABLE t"], "n": ["l", [1, None]]}]
+           {"s": ["l", []]}, {"s": ["v", "x; DROP TABLE t"], "n": ["l", [1, None]]},
+           {"_d": ["v", 0]}, {"_d": ["v", None]}, {"_d": ["l", [1]], "s": ["v", "a_b"]},
+           {"_d": ["v", 1], "n": ["v", 0], "s": ["v", "500"]}]
 
 
 def _item_alphabet(full):
@@ -212,7 +219,9 @@ def _item_alphabet(full):
         items += [REPS[i].item("ao") for i in (0, 3, 8, 10)]
         items += [REPS[i].item("al") for i in (1, 5, 9, 14)]
         items += [["a3", "n", "in", ["s", [-1, 7]]], ["a3", "s", "like", ["v", "50%"]],
-                  ["a3", "s", "is null", ["v", None]], ["a3", "s", "Not In", ["l", []]]]
+                  ["a3", "s", "is null", ["v", None]], ["a3", "s", "Not In", ["l", []]],
+                  ["a3", "_d", "=", ["v", 0]], ["a2", "_d", ["v", None]], ["a3", "_d", "!=", ["l", [0, None]]],
+                  ["a3", "t.s", "LIKE", ["v", "%'%"]], ["a2", "t.n", ["v", 1]], ["a3", "t._d", ">=", ["v", 1]]]
     items.append(["or", [], {}])
     if full:
         items += [["or", [a.item("a3")], {}] for a in REPS]
@@ -220,11 +229,13 @@ def _item_alphabet(full):
         items += [["or", [], {"s": ["v", "o'k"]}], ["or", [], {"s": ["v", "a_b"], "n": ["v", 7]}],
                   ["or", [], {"n": ["v", None]}], ["or", [], {"n": ["l", [1, None]], "s": ["v", "50%"]}],
                   ["or", [REPS[8].item("a3")], {"n": ["v", 0]}], ["or", [REPS[1].item("a2")], {"s": ["v", "zz"]}],
-                  ["or", [REPS[10].item("ao")], {"s": ["l", ["o'k"]]}]]
+                  ["or", [REPS[10].item("ao")], {"s": ["l", ["o'k"]]}],
+                  ["or", [], {"_d": ["v", 0], "n": ["v", 7]}], ["or", [["a2", "t.s", ["v", "axb"]]], {"_d": ["v", None]}]]
     else:
         pairs = [(0, 10), (1, 13), (3, 8), (4, 6), (5, 2), (11, 14)]
         items += [["or", [REPS[i].item("a3"), REPS[j].item("a3")], {}] for i, j in pairs]
-        items += [["or", [], {"s": ["v", "a_b"], "n": ["v", 7]}], ["or", [REPS[8].item("a3")], {"n": ["v", 0]}]]
+        items += [["or", [], {"s": ["v", "a_b"], "n": ["v", 7]}], ["or", [REPS[8].item("a3")], {"n": ["v", 0]}],
+                  ["or", [], {"_d": ["v", 0], "n": ["v", 7]}], ["a3", "_d", "=", ["v", 0]]]
     items += [["st", 0], ["st", 1], ["none"]]
     return items
 
@@ -239,8 +250,8 @@ def _db():
     if _DB is None:
         _DB = sqlite3.connect(":memory:")
         cur = _DB.cursor()
-        cur.execute("CREATE TABLE t (id INTEGER PRIMARY KEY, s TEXT, n INT)")
-        cur.executemany("INSERT INTO t (id, s, n) VALUES (?, ?, ?)", ROWS)
+        cur.execute("CREATE TABLE t (id INTEGER PRIMARY KEY, s TEXT, n INT, _d INT)")
+        cur.executemany("INSERT INTO t (id, s, n, _d) VALUES (?, ?, ?, ?)", ROWS)
         _DB.commit()
     return _DB
 
@@ -317,6 +328,10 @@ def build_item(item):
         feats.append({"a3": "form:3-tuple", "al": "form:list", "ao": "form:object", "a2": "form:2-tuple"}[kind])
         if op != op.upper():
             feats.append("form:lower-case-op")
+        if col.startswith("t."):
+            feats.append("col:qualified")
+        if col.endswith("_d"):
+            feats.append("col:underscore")
         if kind == "a3":
             arg = (col, op, val)
         elif kind == "al":
@@ -356,12 +371,12 @@ def build_item(item):
 
 
 def _expected_result(method, exp_ids, order):
-    rows = [ROWS[i - 1] for i in exp_ids]
+    rows = [ROWS[i - 1][:3] for i in exp_ids]
     if order == "id DESC":
         rows = rows[::-1]
-    if method in ("list", "all", "T.list"):
+    if method in ("list", "all", "T.list", "list+scalars"):
         return ("rows", rows)
-    if method == "one":
+    if method in ("one", "one+scalars"):
         return ("row", rows[0]) if len(rows) == 1 else ("ValueError",)
     if method == "one_or_none":
         return ("none",) if not rows else (("row", rows[0]) if len(rows) == 1 else ("ValueError",))
@@ -379,6 +394,16 @@ def _call(method, conn, args, kwargs, ctor_order):
             tbl = getattr(m, method[2:])(conn, *args, **kwargs)
             return ("rows", [tuple(r) for r in tbl.records])
         m = _method("S", ctor_order)
+        if method.endswith("+scalars"):
+            # _as_scalars=True: first elements (ids) instead of records; mapped back to rows for the comparison
+            kwargs = dict(kwargs, _as_scalars=True)
+            if method == "list+scalars":
+                ids = m.list(conn, *args, **kwargs)
+            else:
+                ids = [m.one(conn, *args, **kwargs)]
+            if not all(isinstance(i, int) and 1 <= i <= NROWS for i in ids):
+                return ("raise", "not-scalars", repr(ids)[:120])
+            return ("rows", [ROWS[i - 1][:3] for i in ids]) if method == "list+scalars" else ("row", ROWS[ids[0] - 1][:3])
         if method == "list":
             return ("rows", [tuple(r) for r in m.list(conn, *args, **kwargs)])
         if method == "all":
@@ -476,6 +501,8 @@ def run_case(case, acc, count=True, classify=True):
         bound += L.bound_values("=", s)
         leaves.append((c, "=", s))
         feats += ["form:keyword", "op:="] + _val_feats(s)
+        if c.startswith("_"):
+            feats.append("form:keyword-underscore-column")
     strs = [x for x in bound if isinstance(x, str) and len(x) >= 2]
     label, v, unknown = run_built(args, kwargs, masks_list, bound, strs, case["method"], case["order"],
                                   case["via"], case["conn"], acc)
@@ -529,6 +556,10 @@ def _report(acc, case, v, leaves):
             if run_case(sub, core.Acc(), count=False, classify=False) is not None:
                 blame = _leaf_class(col, op, spec)
                 break
+        if blame is None and case["kw"]:
+            sub = dict(case, kw={})
+            if run_case(sub, core.Acc(), count=False, classify=False) is None:
+                blame = "keywords"
         if blame is None:
             if any(it[0] == "or" for it in case["items"]):
                 blame = "or-group"
@@ -557,7 +588,8 @@ def bounds(tier):
     b = {"table_rows": NROWS, "atoms": len(ATOMS), "representative_atoms": len(REPS),
          "item_alphabet_deco": len(_item_alphabet(True)), "keyword_sets": len(KW_SETS),
          "leaves": "<= 2 over the full atom alphabet (single, pairs); <= 2 top-level items over the item alphabet",
-         "methods": 7, "orders": 5, "placeholder_styles": 2}
+         "methods": len(METHODS), "orders": len(ORDERS), "placeholder_styles": 2,
+         "two_call_sequences": "16 x 16 representative atoms x 6 method pairs x 2 placeholder styles"}
     if tier == "thorough":
         b["leaves"] = ("<= 3 over the full atom alphabet in 4 shapes; <= 3 top-level items over the reduced item "
                        "alphabet; nested OR groups over the representative atoms")
@@ -571,7 +603,7 @@ def shards(tier):
     out += [("pairs", lo, min(lo + 5, na)) for lo in range(0, na, 5)]
     nd = len(_item_alphabet(True))
     out += [("deco", k, 24) for k in range(24)]
-    out += [("kw",), ("illtyped",)]
+    out += [("kw",), ("illtyped",)] + [("seq", k, 4) for k in range(4)]
     if tier == "thorough":
         out += [("triples", i) for i in range(na)]
         out += [("deco3", k, 8) for k in range(8)]
@@ -580,7 +612,7 @@ def shards(tier):
     return out
 
 
-METHODS = ["list", "all", "one", "one_or_none", "T.list", "T.one", "T.one_or_none"]
+METHODS = ["list", "all", "one", "one_or_none", "T.list", "T.one", "T.one_or_none", "list+scalars", "one+scalars"]
 ORDERS = [("-", "call"), ("id", "call"), ("id DESC", "call"), ("id", "ctor"), ("id DESC", "ctor")]
 
 
@@ -702,6 +734,9 @@ def run_shard(shard, tier, seed, acc):
     if kind == "illtyped":
         _illtyped(acc)
         return
+    if kind == "seq":
+        _seq_block(acc, shard[1], shard[2])
+        return
     if kind == "triples":
         a = ATOMS[shard[1]]
         na = len(ATOMS)
@@ -777,9 +812,67 @@ def _illtyped(acc):
                                       "an operand value is part of the SQL text", sql, "values only in params")
 
 
+def _pristine():
+    """Fresh ak.mtd_sql / ak.mcaller_sql modules and fresh SqlMethod objects."""
+    import importlib
+    import ak.mtd_sql
+    import ak.mcaller_sql
+    importlib.reload(ak.mtd_sql)
+    importlib.reload(ak.mcaller_sql)
+    _METHODS.clear()
+
+
+def run_seq(case, acc, count=True):
+    """Two calls one after the other on the same fresh SqlMethod object in freshly loaded modules: the second
+    call must not be influenced by the first (nothing of a request may survive in the method object, the
+    classes or the module)."""
+    from mc import core
+    first, second = case["seq"]
+    _pristine()
+    acc.trans(2)
+    v1 = run_case(first, core.Acc(), count=False, classify=False)
+    v2 = run_case(second, core.Acc(), count=False, classify=False) if v1 is None else None
+    feats = {"seq:two-calls", "method:" + first["method"], "method:" + second["method"], "conn:" + first["conn"]}
+    report = None
+    if v2 is not None:
+        _pristine()
+        if run_case(second, core.Acc(), count=False, classify=False) is None:
+            report = v2
+        else:
+            feats.add("seq:fails-already-alone")
+    elif v1 is not None:
+        feats.add("seq:fails-already-alone")
+    _METHODS.clear()
+    if count:
+        acc.case(nontrivial=True, features=feats,
+                 outcome="seq:ok" if report is None else "violation:second-call:" + report[0])
+    if report is not None:
+        acc.violation("C15:second-call:" + report[0], case, "second call on the same method object: " + report[1],
+                      report[2], report[3])
+    return report
+
+
+def _seq_block(acc, k, step):
+    combos = [("list", "list"), ("one_or_none", "list"), ("one", "one_or_none"), ("T.list", "T.list"),
+              ("T.one", "T.list"), ("list+scalars", "list")]
+    for a in REPS[k::step]:
+        for b in REPS:
+            for m1, m2 in combos:
+                for conn in ("q", "p"):
+                    c1 = {"items": [a.item("a3")], "kw": {}, "order": "id", "via": "call", "method": m1, "conn": conn}
+                    c2 = {"items": [b.item("a3")], "kw": {"_d": ["v", 0]}, "order": "-", "via": "call", "method": m2,
+                          "conn": conn}
+                    run_seq({"seq": [c1, c2]}, acc)
+        if acc.expired():
+            return
+
+
 def replay(case, acc):
     if "illtyped" in case:
         _illtyped(acc)
+        return
+    if "seq" in case:
+        run_seq(case, acc)
         return
     run_case(case, acc)
 
